@@ -7,6 +7,7 @@ import (
 	"go/ast"
 	"go/token"
 	"go/types"
+	"sort"
 	"strings"
 
 	"verif/sa/core"
@@ -1334,6 +1335,239 @@ func init() {
 					return core.Unknown
 				}}
 			core.Dominated{Fn: fn, Spec: sp2, Sink: core.CallSink(mpm + "PushTx"), Need: []Fact{"exec-checked"}, Min: 1}.Check(r)
+		}),
+	)
+}
+
+func init() {
+	extend("C16", "R16f (added after a seeded change was missed): the eth-style driver accepts a signature only when the library's own verification of (public key, digest, r‖s) says so — key recovery plus key comparison alone also accepts the mirrored signature (r, N−s, v^1), i.e. an altered signature.",
+		rule("R16f", "secp256k1eth: acceptance is the library verification's verdict", 2, func(r *Run) {
+			fn := "system/crypto/secp256k1eth.PubKeySecp256k1Eth.VerifyBytes"
+			vs := "github.com/ethereum/go-ethereum/crypto.VerifySignature"
+			f := r.Fn(fn)
+			if f == nil {
+				return
+			}
+			fl := core.RunFlow(f, spec(isTrue("library-verified", vs)))
+			c := f.Ctx()
+			n := 0
+			for _, ret := range fl.G.Returns() {
+				rs, ok := ret.Ast.(*ast.ReturnStmt)
+				if !ok || len(rs.Results) != 1 || !fl.Live(ret) {
+					continue
+				}
+				if tv, isC := c.Info.Types[rs.Results[0]]; isC && tv.Value != nil && tv.Value.String() == "false" {
+					continue
+				}
+				n++
+				label := fmt.Sprintf("%s: accepting return #%d is the library's verdict", f.Name, n)
+				if core.CallAtom([]string{vs})(c, rs.Results[0]) || fl.In[ret].Has("library-verified") {
+					r.OK(label, r.W.Pos(rs.Pos()), core.ExprStr(rs.Results[0]))
+				} else {
+					r.Fail(label, r.W.Pos(rs.Pos()), fmt.Sprintf("`return %s` accepts without ethcrypto.VerifySignature having accepted: the mirrored (high-S) form of a valid signature recovers the same key and would pass", core.ExprStr(rs.Results[0])))
+				}
+			}
+			if n == 0 {
+				r.Fail(f.Name+": accepting returns", r.W.Pos(f.Node().Pos()), "no accepting return found")
+			}
+			core.CallArgs{Fn: fn, Callee: []string{vs}, What: "the receiver key, and the first 64 signature bytes (r‖s)", Args: map[int]core.ExprPred{0: core.Mentions("recv"), 2: func(c *core.Ctx, e ast.Expr) bool {
+				se, ok := ast.Unparen(e).(*ast.SliceExpr)
+				return ok && se.High != nil && core.IsConstInt(64)(c, se.High)
+			}}, Min: 1}.Check(r)
+		}),
+	)
+}
+
+func init() {
+	drivers := []string{"secp256r1", "btcscript", "none", "sm2", "secp256k1eth", "secp256k1", "ed25519"}
+	for _, d := range drivers {
+		addPackages("C16", "system/crypto/"+d)
+	}
+	extend("C16", "R16g (added after a seeded change was missed): in every signature driver's Validate a failed basic validation (public key, signature decoding, signature verification) can never end in acceptance — its error is tested before anything can overwrite it.",
+		rule("R16g", "a failed signature verification is final in every driver's Validate", 5, func(r *Run) {
+			n := 0
+			for _, d := range drivers {
+				fn := "system/crypto/" + d + ".Driver.Validate"
+				f := r.W.Func(fn)
+				if f == nil {
+					continue
+				}
+				if !calleeSet(f)["common/crypto.BasicValidation"] {
+					continue
+				}
+				n++
+				core.FailStops{Fn: fn, Callee: []string{"common/crypto.BasicValidation"}, Fail: core.OErrNonNil, Idx: -1, Forbidden: core.SuccessReturn(-1), Min: 1, Name: "BasicValidation error"}.Check(r)
+			}
+			if n < 4 {
+				r.Fail("signature drivers whose Validate runs crypto.BasicValidation", "system/crypto/", fmt.Sprintf("expected ≥4, found %d", n))
+			}
+		}),
+	)
+}
+
+// envErrorTested: every api.IsAPIEnvError(X) in the functions of pkg tests the
+// error variable of the `if X != nil` it sits in (the error of the call that
+// has just failed) — testing another, older error variable there is always nil
+// or stale.
+func envErrorTested(r *Run, pkgShort string, min int) {
+	pkg := r.W.Pkg(pkgShort)
+	if pkg == nil {
+		r.Unresolved("package " + pkgShort)
+		return
+	}
+	n := 0
+	for _, f := range r.W.AllFuncs(pkg) {
+		c := f.Ctx()
+		ast.Inspect(f.Body(), func(x ast.Node) bool {
+			if _, isLit := x.(*ast.FuncLit); isLit && x != f.Node() {
+				return false
+			}
+			call, ok := x.(*ast.CallExpr)
+			if !ok || len(call.Args) != 1 {
+				return true
+			}
+			fn := core.Callee(c.Info, call)
+			if fn == nil || core.ShortName(fn) != "client/api.IsAPIEnvError" {
+				return true
+			}
+			arg, ok := ast.Unparen(call.Args[0]).(*ast.Ident)
+			if !ok {
+				return true
+			}
+			// innermost enclosing `if Y != nil`
+			var tested types.Object
+			for p := r.W.Parent(call); p != nil; p = r.W.Parent(p) {
+				if is, ok := p.(*ast.IfStmt); ok && call.Pos() >= is.Body.Pos() && call.End() <= is.Body.End() {
+					if b, ok := ast.Unparen(is.Cond).(*ast.BinaryExpr); ok && b.Op == token.NEQ && isNilLit(c, b.Y) {
+						if id, ok := ast.Unparen(b.X).(*ast.Ident); ok && core.IsErrorTyped(c.Info, id) {
+							tested = c.Info.ObjectOf(id)
+							break
+						}
+					}
+				}
+				if _, isFn := p.(*ast.FuncDecl); isFn {
+					break
+				}
+			}
+			if tested == nil {
+				return true // tested unconditionally (e.g. directly on a call result): nothing to compare with
+			}
+			n++
+			label := fmt.Sprintf("%s: IsAPIEnvError#%d examines the error that was just found non-nil", f.Name, n)
+			if c.Info.ObjectOf(arg) == tested {
+				r.OK(label, r.W.Pos(call.Pos()), arg.Name)
+			} else {
+				r.Fail(label, r.W.Pos(call.Pos()), fmt.Sprintf("inside `if %s != nil` the environment-error test looks at `%s`: a transient queue/rpc failure of the call that just failed is not recognised and becomes an ordinary failed receipt (the block execution is not aborted, so nodes with and without the fault disagree)", tested.Name(), arg.Name))
+			}
+			return true
+		})
+	}
+	if n < min {
+		r.Fail("executor: IsAPIEnvError tests inside an error branch", pkgShort, fmt.Sprintf("expected ≥%d, found %d", min, n))
+	}
+}
+
+func init() {
+	extend("C13", "R13g (added after a seeded change was missed): the test that turns a transient environment failure (queue/rpc error) into an abort of the block execution examines the error of the call that has just failed.",
+		rule("R13g", "environment errors abort: the test looks at the error just returned", 3, func(r *Run) { envErrorTested(r, "executor", 3) }))
+	extend("C11", "R11g-R11h (added after seeded changes were missed): same rule as R13g (an environment failure must abort, not become a fee-only receipt); Rollback and Commit of each of the three transactional databases clear the in-transaction flag (directly or through the reset helper they call), so no write after a finished transaction lands in the transaction overlay.",
+		rule("R11g", "environment errors abort: the test looks at the error just returned", 3, func(r *Run) { envErrorTested(r, "executor", 3) }),
+		rule("R11h", "Rollback and Commit leave the in-transaction flag cleared", 4, func(r *Run) {
+			for _, ty := range []string{"executor.(*StateDB)", "executor.(*LocalDB)"} {
+				for _, m := range []string{"Rollback", "Commit"} {
+					f := r.Fn(ty + "." + m)
+					if f == nil {
+						continue
+					}
+					fields := mutatedRecvFields(r.W, f, 3, nil)
+					label := fmt.Sprintf("%s.%s resets the in-transaction flag", ty, m)
+					if pos, ok := fields["intx"]; ok {
+						r.OK(label, pos, "intx is assigned on the way out")
+					} else {
+						r.Fail(label, r.W.Pos(f.Node().Pos()), "neither the method nor the receiver methods it calls assign intx: the database stays in transaction mode, the next writes go to the transaction overlay and are wiped by the next Begin")
+					}
+				}
+			}
+		}),
+	)
+	extend("C14", "R14g (added after a seeded change was missed): the address index counts and un-counts under identical conditions — the per-address counter updates of ExecLocal and ExecDelLocal sit behind the same guards with the same address arguments.",
+		rule("R14g", "address counter: add and delete update under the same guards", 1, func(r *Run) {
+			sig := func(fn string) (map[string]int, *core.FuncInfo) {
+				f := r.Fn(fn)
+				if f == nil {
+					return nil, nil
+				}
+				c := f.Ctx()
+				out := map[string]int{}
+				ast.Inspect(f.Body(), func(x ast.Node) bool {
+					call, ok := x.(*ast.CallExpr)
+					if !ok {
+						return true
+					}
+					if fnc := core.Callee(c.Info, call); fnc == nil || core.ShortName(fnc) != "executor.updateAddrTxsCount" || len(call.Args) != 5 {
+						return true
+					}
+					key := guardsOf(r.W, c, call, f) + " ⇒ count(" + core.CanonExpr(c, call.Args[2]) + "," + core.CanonExpr(c, call.Args[3]) + ")"
+					out[key]++
+					return true
+				})
+				return out, f
+			}
+			a, fa := sig("executor.(*addrindexPlugin).ExecLocal")
+			d, fd := sig("executor.(*addrindexPlugin).ExecDelLocal")
+			if fa == nil || fd == nil {
+				return
+			}
+			label := "executor.addrindexPlugin: ExecLocal and ExecDelLocal update the per-address counter under the same guards"
+			same := len(a) == len(d) && len(a) >= 2
+			for k, v := range a {
+				if d[k] != v {
+					same = false
+				}
+			}
+			if same {
+				r.OK(label, r.W.Pos(fa.Node().Pos()), fmt.Sprintf("%d guarded update(s) on each side", len(a)))
+			} else {
+				r.Fail(label, r.W.Pos(fd.Node().Pos()), fmt.Sprintf("add side: %v — delete side: %v", keysOf(a), keysOf(d)))
+			}
+		}),
+	)
+}
+
+func keysOf(m map[string]int) []string {
+	var ks []string
+	for k, v := range m {
+		ks = append(ks, fmt.Sprintf("%s ×%d", k, v))
+	}
+	sort.Strings(ks)
+	return ks
+}
+
+func init() {
+	extend("C11", "R11i (added after a seeded change was missed): a rollback inside a transaction always truncates the list of buffered remote writes back to the mark taken at Begin — the truncation depends on nothing but the transaction flag and the mark.",
+		rule("R11i", "Rollback in a transaction always drops the buffered writes made since Begin", 1, func(r *Run) {
+			fn := "executor.(*LocalDB).Rollback"
+			recvF := func(name string) core.ExprPred {
+				return func(c *core.Ctx, e ast.Expr) bool {
+					sel, ok := ast.Unparen(e).(*ast.SelectorExpr)
+					if !ok || sel.Sel.Name != name {
+						return false
+					}
+					id, ok := ast.Unparen(sel.X).(*ast.Ident)
+					return ok && c.Info.ObjectOf(id) == types.Object(c.F.Recv())
+				}
+			}
+			as := core.AssumeAll(assumeRecvField("intx", core.True), core.AssumeRel(recvF("txkvs"), token.LEQ, lenOf(recvF("kvs")), core.True))
+			core.Dominated{Fn: fn, Spec: &core.FlowSpec{Assume: as, Nodes: []core.NodeGen{{Fact: "buffer-truncated", Gen: func(c *core.Ctx, n *core.GNode) bool {
+				asg, ok := n.Ast.(*ast.AssignStmt)
+				return ok && len(asg.Lhs) == 1 && recvF("kvs")(c, asg.Lhs[0])
+			}}}}, Sink: core.AnyReturn(), Need: []Fact{"buffer-truncated"}, Min: 1}.Check(r)
+		}),
+	)
+	extend("C12", "R12e (added after a seeded change was missed): the list of keys a transaction actually wrote is read AFTER the code that writes them has run — in execLocalTx after execLocal, in execTxOne after Exec — so an unreported write cannot be missed by taking the snapshot too early.",
+		rule("R12e", "the written-keys snapshot is taken after the writes", 2, func(r *Run) {
+			core.NotAfter{Fn: "executor.(*executor).execLocalTx", Early: []string{"executor.(*executor).execLocal"}, Late: []string{"executor.(*LocalDB).GetSetKeys"}, Name: "execLocal runs before the local written-keys snapshot", Min: 1}.Check(r)
+			core.NotAfter{Fn: "executor.(*executor).execTxOne", Early: []string{"executor.(*executor).Exec"}, Late: []string{"executor.(*StateDB).GetSetKeys"}, Name: "Exec runs before the state written-keys snapshot", Min: 1}.Check(r)
 		}),
 	)
 }
